@@ -71,6 +71,12 @@ func frag(kind string) any {
 		return m("$ref", "#/$defs/")
 	case "refother":
 		return m("$ref", "#/other/x")
+	case "refdefsbare":
+		return m("$ref", "#/$defs")
+	case "refdefinitionsbare":
+		return m("$ref", "#/definitions")
+	case "refuppercase":
+		return m("$ref", "#/$DEFS/Nope")
 	case "emptyenum":
 		return m("enum", []any{})
 	case "nonprimenum":
